@@ -315,6 +315,10 @@ class Evaluator:
                 try:
                     res = {"+": l[1] + r[1], "-": l[1] - r[1], "*": l[1] * r[1], "&": l[1] & r[1], "|": l[1] | r[1],
                            ">>": l[1] >> r[1] if r[1] >= 0 else 0, "<<": l[1] << r[1] if 0 <= r[1] < 128 else 0,
+                           "^": l[1] ^ r[1],
+                           # Rust's integer `/` and `%` truncate towards zero
+                           "/": (abs(l[1]) // abs(r[1])) * (1 if (l[1] < 0) == (r[1] < 0) else -1) if r[1] != 0 else 0,
+                           "%": (abs(l[1]) % abs(r[1])) * (1 if l[1] >= 0 else -1) if r[1] != 0 else 0,
                            "<": l[1] < r[1], "<=": l[1] <= r[1], ">": l[1] > r[1], ">=": l[1] >= r[1]}[op]
                     return ("b", res) if isinstance(res, bool) else ("i", res)
                 except KeyError:
